@@ -37,11 +37,13 @@ pub struct SymStream<const N: usize> {
     pub fail_at: Option<usize>,
     pub failed: bool,
     pub short_reads_done: usize,
+    /// at most this many reads are short; afterwards every read is full (bounds the schedule)
+    pub short_budget: usize,
 }
 
 impl<const N: usize> SymStream<N> {
     pub fn new(data: [u8; N], len: usize, short: bool) -> Self {
-        SymStream { data, len, pos: 0, short, calls: 0, fail_at: None, failed: false, short_reads_done: 0 }
+        SymStream { data, len, pos: 0, short, calls: 0, fail_at: None, failed: false, short_reads_done: 0, short_budget: usize::MAX }
     }
 
     fn tick(&mut self) -> io::Result<()> {
@@ -62,7 +64,7 @@ impl<const N: usize> Read for SymStream<N> {
         let pos = if self.pos > self.len as u64 { self.len } else { self.pos as usize };
         let avail = self.len - pos;
         let mut n = if buf.len() < avail { buf.len() } else { avail };
-        if self.short && n > 1 {
+        if self.short && n > 1 && self.short_reads_done < self.short_budget {
             let k: usize = kani::any();
             kani::assume(k >= 1 && k <= n);
             if k < n {
